@@ -260,15 +260,15 @@ class Ombott:
         request = self.request
 
         path = environ['ombott.raw_path'] = environ['PATH_INFO']
-        try:
-            path = path.encode('latin1').decode('utf8')
-        except UnicodeError:
-            return HTTPError(400, 'Invalid path string. Expected UTF-8')
-        environ['PATH_INFO'] = path
         try:  # init thread
             environ['ombott.app'] = self
             request.__init__(environ)
             response.__init__()
+            try:
+                path = path.encode('latin1').decode('utf8')
+            except UnicodeError:
+                return HTTPError(400, 'Invalid path string. Expected UTF-8')
+            environ['PATH_INFO'] = path
             try:  # routing
                 self.emit('before_request')
                 route, kwargs, route_hooks = (None, None, None)
